@@ -34,7 +34,7 @@ def gates(tier):
                         "f.project(k)(x)": 1000 * k, "constructors": 1000 * k},
         "shapes": {c: 5 * k for c in ["f:eps_out", "g:eps_in", "eps:eps", "fst_cyclic", "branch:left-smaller", "branch:right-smaller",
                                       "fst_multi_initial", "fst_multi_final", "sr:Q", "sr:Float", "sr:Boolean", "sr:MaxTimes",
-                                      "both-eps-sides"]},
+                                      "both-eps-sides", "constructor-freshness", "fst_one_to_many_parallel"]},
         "min_hashseeds": 2,
     }
 
@@ -46,8 +46,10 @@ def gen_case(rng, spec):
     f = GA.gen_fst(rng, max_states=4 if big else 2, A=["a", "b"], B=["x", "y"])
     g = GA.gen_fst(rng, max_states=2 if big else 4, A=["x", "y"], B=["u", "v"])
     pairs = []
-    for _ in range(rng.randint(1, 3)):
-        pairs.append([[rng.choice("ab") for _ in range(rng.randint(0, 3))], [rng.choice("xy") for _ in range(rng.randint(0, 3))]])
+    npairs = rng.randint(1, 3) if rng.random() < 0.85 else rng.randint(12, 16)  # size threshold: a lexicon-sized list
+    for k in range(npairs):
+        la = rng.randint(0, 3) if not (npairs > 3 and k in (1, 2)) else rng.randint(10, 12)
+        pairs.append([[rng.choice("ab") for _ in range(la)], [rng.choice("xy") for _ in range(rng.randint(0, 3))]])
     return {"f": f, "g": g, "R": rng.choice(SEMIRINGS), "maxlen": 2 if spec.get("tier") == "quick" else 3, "pairs": pairs,
             "s": [rng.choice("ab") for _ in range(rng.randint(0, 3))], "sw": Fr(rng.randint(1, 4), 8)}
 
@@ -167,6 +169,21 @@ def run_case(case, ctx):
                 if ok:
                     w = convw(case["sw"]) if (x == s and y == s) else zero
                     ctx.check(APIS[5], same(v, w), "FST.from_string/value", dict(case, x=list(x), y=list(y)), {"have": v, "want": lib.want_value(R, w)})
+    # objects returned by a constructor belong to the caller: extending one must not affect the next one built
+    ok, F1 = ctx.call(APIS[5], case, FST.from_string, s, Rcls)
+    if ok:
+        ok, _ = ctx.call(APIS[5], case, F1.add_arc, s, ("a", "b"), ("extra-state",), Rcls.one)
+        ok2, _ = ctx.call(APIS[5], case, F1.add_F, ("extra-state",), Rcls.one)
+        ok3, F2 = ctx.call(APIS[5], case, FST.from_string, s, Rcls)
+        if ok and ok2 and ok3:
+            ctx.shape["constructor-freshness"] += 1
+            for x in XA[:15]:
+                for y in XA[:15]:
+                    ok, v = ctx.call(APIS[5], dict(case, x=list(x), y=list(y)), F2, x, y)
+                    if ok:
+                        w = one if (x == s and y == s) else zero
+                        ctx.check(APIS[5], same(v, w), "FST.from_string/returns-a-shared-object", dict(case, x=list(x), y=list(y)),
+                                  {"have": v, "want": lib.want_value(R, w)})
     pairs = [(tuple(a), tuple(b)) for a, b in case["pairs"]]
     ok, FP = ctx.call(APIS[5], case, FST.from_pairs, pairs, Rcls)
     if ok:
